@@ -4,6 +4,6 @@ CONSTANTS
   MaxDepth = 4
   Dedup = TRUE
   NameFn <- GoodName
-INVARIANTS Once Complete Injective NoDivergeIfFinite RefusedOnlyIfInfinite
-PROPERTIES Terminates AlwaysEnds
+INVARIANTS Once OnceEquiv Complete Injective DoneIffFinite Bookkeeping
+PROPERTIES AlwaysEnds
 CHECK_DEADLOCK FALSE
